@@ -36,6 +36,7 @@ an arbitrary capacity `m ≥ 1` and an arbitrary first copy identity `base`.
   the (always ascending) key list.
 -/
 import DeapModel.Lemmas.C08Worst
+import DeapModel.Lemmas.C08Batch
 import DeapModel.Lemmas.C08HeapProps
 
 set_option linter.unusedSectionVars false
@@ -263,6 +264,95 @@ theorem pf_exact {n : Nat} (hh : PfHyp sim n hist.flatten)
       rw [sx'.2, hnd x' hx'] at hd; exact absurd hd (by simp)
     · exact ⟨it, hit, ht.1.symm, ht.2⟩
 
+/-! ## How a history is cut into `update` calls, and the order inside it -/
+
+variable (sim)
+
+/-- Showing `xs ++ ys` in one `ParetoFront.update` is showing `xs`, then `ys` — for every archive state `h`
+(the loop carries no state from one individual to the next except the archive itself). -/
+theorem pf_update_batch_split (h : HoF G α) (xs ys : List (Ind G α)) :
+    pfUpdate sim h (xs ++ ys) = (pfUpdate sim h xs).bind (fun h' => pfUpdate sim h' ys) :=
+  pfUpdate_append sim h xs ys
+
+/-- A whole history is one update with the concatenation of its batches: the archive (members, keys, even the
+identities of the copies) depends only on the sequence of individuals shown, not on where the batches end. -/
+theorem pf_history_flatten (h : HoF G α) (hist : List (List (Ind G α))) :
+    pfRun sim h hist = pfUpdate sim h hist.flatten :=
+  pfRun_eq_flatten sim h hist
+
+/-- … so two histories showing the same individuals in the same order leave the same archive. -/
+theorem pf_batch_split_invariant (h : HoF G α) {hist hist' : List (List (Ind G α))}
+    (e : hist.flatten = hist'.flatten) : pfRun sim h hist = pfRun sim h hist' := by
+  rw [pf_history_flatten, pf_history_flatten, e]
+
+/-- The same for `HallOfFame.update`, for every archive state and every capacity: `population[0]` is read
+only while the archive is empty, and then it is the individual of the current iteration. -/
+theorem hof_update_batch_split (h : HoF G α) (xs ys : List (Ind G α)) :
+    update sim h (xs ++ ys) = (update sim h xs).bind (fun h' => update sim h' ys) :=
+  update_append sim h xs ys
+
+theorem hof_history_flatten (h : HoF G α) (hist : List (List (Ind G α))) :
+    run sim h hist = update sim h hist.flatten :=
+  run_eq_flatten sim h hist
+
+theorem hof_batch_split_invariant (h : HoF G α) {hist hist' : List (List (Ind G α))}
+    (e : hist.flatten = hist'.flatten) : run sim h hist = run sim h hist' := by
+  rw [hof_history_flatten, hof_history_flatten, e]
+
+variable {sim}
+
+/-- The member SET of the Pareto archive does not depend on the order in which the individuals were shown
+(nor on how often): two histories showing the same set of individuals leave archives such that every member of
+one has a member of the other with equal fitness similar to it — so the sets of member fitnesses are equal — and,
+when similar individuals have equal genomes (the default `operator.eq`), the sets of (genome, fitness) contents
+are equal. -/
+theorem pf_members_order_invariant {n m' base' : Nat} {hist' : List (List (Ind G α))} {h' : HoF G α}
+    (hh : PfHyp sim n hist.flatten) (hset : ∀ x, x ∈ hist.flatten ↔ x ∈ hist'.flatten)
+    (hr : pfRun sim (empty m base) hist = some h) (hr' : pfRun sim (empty m' base') hist' = some h') :
+    (∀ it ∈ h.items, ∃ it' ∈ h'.items, it'.fit = it.fit ∧ sim it it' = true) ∧
+    (∀ it' ∈ h'.items, ∃ it ∈ h.items, it.fit = it'.fit ∧ sim it' it = true) ∧
+    ((∀ a b : Ind G α, sim a b = true → a.genome = b.genome) →
+      ∀ (g : G) (f : Fitness.Fit α), (∃ it ∈ h.items, it.genome = g ∧ it.fit = f) ↔
+        (∃ it' ∈ h'.items, it'.genome = g ∧ it'.fit = f)) := by
+  have hh' : PfHyp sim n hist'.flatten := ⟨hh.toSimBase, fun x hx => hh.len x ((hset x).2 hx)⟩
+  have key : ∀ {m₁ b₁ m₂ b₂ : Nat} {H₁ H₂ : List (List (Ind G α))} {a₁ a₂ : HoF G α},
+      PfHyp sim n H₁.flatten → PfHyp sim n H₂.flatten →
+      (∀ x, x ∈ H₁.flatten → x ∈ H₂.flatten) → (∀ x, x ∈ H₂.flatten → x ∈ H₁.flatten) →
+      pfRun sim (empty m₁ b₁) H₁ = some a₁ → pfRun sim (empty m₂ b₂) H₂ = some a₂ →
+      ∀ it ∈ a₁.items, ∃ it' ∈ a₂.items, it'.fit = it.fit ∧ sim it it' = true := by
+    intro m₁ b₁ m₂ b₂ H₁ H₂ a₁ a₂ p₁ p₂ s₁₂ s₂₁ r₁ r₂ it hit
+    obtain ⟨x, hx, sx, hnd⟩ := (pf_exact p₁ r₁).1 it hit
+    obtain ⟨it', hit', hf, hs⟩ := (pf_exact p₂ r₂).2.1 x (s₁₂ x hx) (fun y hy => hnd y (s₂₁ y hy))
+    refine ⟨it', hit', by rw [hf, sx.2], ?_⟩
+    rw [p₁.same it x it' it' sx (same_refl it')]; exact hs
+  have k₁ := key hh hh' (fun x => (hset x).1) (fun x => (hset x).2) hr hr'
+  have k₂ := key hh' hh (fun x => (hset x).2) (fun x => (hset x).1) hr' hr
+  refine ⟨k₁, k₂, fun hg g f => ⟨?_, ?_⟩⟩
+  · rintro ⟨it, hit, rfl, rfl⟩
+    obtain ⟨it', hit', hf, hs⟩ := k₁ it hit
+    exact ⟨it', hit', (hg it it' hs).symm, hf⟩
+  · rintro ⟨it', hit', rfl, rfl⟩
+    obtain ⟨it, hit, hf, hs⟩ := k₂ it' hit'
+    exact ⟨it, hit, (hg it' it hs).symm, hf⟩
+
+/-- … in particular under every permutation of everything shown (any order inside a batch, any order of the
+batches, any cutting). -/
+theorem pf_members_perm_invariant {n m' base' : Nat} {hist' : List (List (Ind G α))} {h' : HoF G α}
+    (hh : PfHyp sim n hist.flatten) (hperm : hist.flatten.Perm hist'.flatten)
+    (hr : pfRun sim (empty m base) hist = some h) (hr' : pfRun sim (empty m' base') hist' = some h') :
+    (∀ f : Fitness.Fit α, (∃ it ∈ h.items, it.fit = f) ↔ (∃ it' ∈ h'.items, it'.fit = f)) ∧
+    ((∀ a b : Ind G α, sim a b = true → a.genome = b.genome) →
+      ∀ (g : G) (f : Fitness.Fit α), (∃ it ∈ h.items, it.genome = g ∧ it.fit = f) ↔
+        (∃ it' ∈ h'.items, it'.genome = g ∧ it'.fit = f)) := by
+  obtain ⟨k₁, k₂, k₃⟩ := pf_members_order_invariant hh (fun x => hperm.mem_iff) hr hr'
+  refine ⟨fun f => ⟨?_, ?_⟩, k₃⟩
+  · rintro ⟨it, hit, rfl⟩
+    obtain ⟨it', hit', hf, _⟩ := k₁ it hit
+    exact ⟨it', hit', hf⟩
+  · rintro ⟨it', hit', rfl⟩
+    obtain ⟨it, hit, hf, _⟩ := k₂ it' hit'
+    exact ⟨it, hit, hf⟩
+
 /-! ## Non-vacuity: a concrete history satisfying all hypotheses at once -/
 
 section Examples
@@ -306,6 +396,24 @@ example : view (pfRun genomeEq (empty 0 100) exHist) = some ([(102, 9, [3, -1])]
 
 example : SimHyp genomeEq exHist.flatten := simHyp_genomeEq _ (by decide)
 example : PfHyp genomeEq 2 exHist.flatten := pfHyp_genomeEq 2 _ (by decide)
+
+/-- the concrete history cut differently (one batch / every individual alone) leaves the same archive -/
+example : exHist.flatten = [exHist.flatten].flatten := by simp
+example : pfRun genomeEq (empty 0 100) exHist = pfRun genomeEq (empty 0 100) [exHist.flatten] :=
+  pf_batch_split_invariant genomeEq _ (by simp)
+example : run genomeEq (empty 2 100) exHist = run genomeEq (empty 2 100) (exHist.flatten.map (fun x => [x])) :=
+  hof_batch_split_invariant genomeEq _ rfl
+
+/-- the hypotheses of `pf_members_order_invariant` / `pf_members_perm_invariant` hold for the concrete history and
+the history that shows its batches in reverse order and everything in reverse order inside each batch;
+genome equality has equal genomes on similar individuals, so the (genome, fitness) sets agree -/
+example : exHist.flatten.Perm (exHist.map List.reverse).reverse.flatten := by
+  have : (exHist.map List.reverse).reverse.flatten = exHist.flatten.reverse := rfl
+  rw [this]; exact (List.reverse_perm _).symm
+example : ∀ a b : Ind Nat Int, genomeEq a b = true → a.genome = b.genome := by
+  intro a b e; simpa [genomeEq] using e
+example : view (pfRun genomeEq (empty 0 50) (exHist.map List.reverse).reverse) =
+    some ([(51, 9, [3, -1])], [[3, -1]]) := by decide
 
 /-- all hypotheses of the hall-of-fame theorems hold together on the concrete history (capacity 2),
 so their conclusions do: -/
